@@ -1215,9 +1215,68 @@ def check_nsec(case):
             continue  # already reported as missing-nsec
         probs.append(("C15/nsec-chain/signer/authoritative-rrset-not-signed" + inputclass,
                       "%s: signer never called for %s/%s" % (desc, show(k[0]), tnames([k[1]]))))
+    # ---- sign again after the zone changed: the chain must be the chain of the *new* content
+    # (every owner exactly one NSEC; stale NSEC records replaced, not kept beside the new ones)
+    if not probs and case.get("resign", True):
+        probs += check_resign(z, rrs, rel, zcls, desc, Oname, O)
     ncuts = len(cuts)
     outcome = "nsec:ok:cuts=%d:%s" % (ncuts, "ents" if (bits & 3) == 2 or (bits >> 2 & 1) else "no-ents") if not probs else "BAD"
     return probs, outcome, (bits, rel)
+
+
+RESIGN_ADD = [zrr("m", 300, RR_A("10.0.0.77")), zrr("0", 300, RR_TXT("first"))]
+
+
+def check_resign(z, rrs, rel, zcls, desc, Oname, O):
+    """Modify the signed zone (two new names, one of them sorting first; toggle `a/A`), sign it
+    again and compare the NSEC records with the reference chain of the new content."""
+    probs = []
+    had_a = any(o == "a" and rd[0] == "A" for o, _t, rd in rrs)
+    rrs2 = [r for r in rrs if r[0] != "a"] if had_a else rrs + [zrr("a", 300, RR_A("10.0.0.1"))]
+    rrs2 = rrs2 + RESIGN_ADD
+    try:
+        target = load_zone(rrs2, rel, zcls)
+        with z.writer() as txn:
+            for name, node in target.nodes.items():
+                for rds in node.rdatasets:
+                    if txn.get(name, rds.rdtype, rds.covers) is None:
+                        txn.add(name, rds)
+            if had_a:
+                # the name goes away as a whole (its old NSEC/RRSIG records with it)
+                txn.delete(dns.name.from_text("a", None if rel else Oname))
+        dns.dnssec.sign_zone(z, rrset_signer=lambda txn, rrset: None, add_dnskey=False)
+        after = snapshot_zone(z, Oname)
+    except Exception as e:
+        return [("C15/nsec-chain/resign/" + crash_sig(e), "%s re-signed after a change: %s: %s" % (desc, type(e).__name__, e))]
+    refrrs = zone_ref_rrs(rrs2, rel)
+    chain, _signed = ref.nsec_chain(O, [(o, t) for o, t, _c, _ttl, _w in refrrs])
+    exp = {ref.lower_name(o): (n, ts) for o, n, ts in chain}
+    got = {owner: wires for (owner, rdtype), (ttl, wires) in after.items() if rdtype == 47}
+    for owner in sorted(set(got) - set(exp), key=ref.name_order_key):
+        probs.append(("C15/nsec-chain/resign/stale-nsec-owner", "%s: after re-signing NSEC still at %s" % (desc, show(owner))))
+    for owner in sorted(set(exp) - set(got), key=ref.name_order_key):
+        probs.append(("C15/nsec-chain/resign/missing-nsec", "%s: after re-signing no NSEC at %s" % (desc, show(owner))))
+    for owner, wires in sorted(got.items()):
+        if owner not in exp:
+            continue
+        if len(wires) != 1:
+            probs.append(("C15/nsec-chain/resign/multiple-nsec-rrs", "%s: %d NSEC RRs at %s after re-signing (the old one was kept)" % (
+                desc, len(wires), show(owner))))
+            continue
+        try:
+            gnext, pos = ref.read_name(wires[0], 0)
+            gtypes = ref.parse_type_bitmap(wires[0][pos:])
+        except ref.RefError as e:
+            probs.append(("C15/nsec-chain/resign/malformed-nsec-rdata", "%s at %s: %s" % (desc, show(owner), e)))
+            continue
+        nxt, types = exp[owner]
+        if not ref.same_name(gnext, nxt):
+            probs.append(("C15/nsec-chain/resign/wrong-next", "%s: after re-signing NSEC at %s points to %s, successor is %s" % (
+                desc, show(owner), show(gnext), show(nxt))))
+        if gtypes != types:
+            probs.append(("C15/nsec-chain/resign/bitmap", "%s: after re-signing NSEC at %s lists %s, expected %s" % (
+                desc, show(owner), tnames(gtypes), tnames(types))))
+    return probs
 
 
 def show(labels):
